@@ -75,6 +75,8 @@ type Transport struct {
 	// Rewrite may alter a response body before the client sees it.
 	Rewrite func(r *Record, body []byte) []byte
 	Keep    bool
+	// per-host hooks (crash / fault injection at round trips of one world)
+	hooks sync.Map // host -> *HostHooks
 	// StripDLEQ: hosts whose successful responses are delivered without "dleq" objects
 	// (a mint that does not implement NUT-12).
 	StripDLEQ sync.Map
@@ -96,6 +98,22 @@ func (t *Transport) Register(host string, h http.Handler) {
 	t.mu.Lock()
 	t.hosts[host] = h
 	t.mu.Unlock()
+}
+
+// HostHooks are called around the round trips to one host: Before may return an
+// error or panic before the request reaches the mint; After after the mint has
+// executed it and before the client sees the response.
+type HostHooks struct {
+	Before func(r *Record) error
+	After  func(r *Record) error
+}
+
+func (t *Transport) SetHooks(host string, h *HostHooks) {
+	if h == nil {
+		t.hooks.Delete(host)
+		return
+	}
+	t.hooks.Store(host, h)
 }
 
 // RegisterSink makes the records of host go to sink.
@@ -166,6 +184,17 @@ func (t *Transport) RoundTrip(req *http.Request) (*http.Response, error) {
 			sink.mu.Unlock()
 		}
 	}
+	var hh *HostHooks
+	if x, ok := t.hooks.Load(host); ok {
+		hh = x.(*HostHooks)
+	}
+	if hh != nil && hh.Before != nil {
+		if err := hh.Before(rec); err != nil {
+			rec.Err = err.Error()
+			keep()
+			return nil, err
+		}
+	}
 	if t.Before != nil {
 		if err := t.Before(rec); err != nil {
 			rec.Err = err.Error()
@@ -191,6 +220,11 @@ func (t *Transport) RoundTrip(req *http.Request) (*http.Response, error) {
 	rec.Status = status
 	rec.RespBody = body
 	keep()
+	if hh != nil && hh.After != nil {
+		if err := hh.After(rec); err != nil {
+			return nil, err
+		}
+	}
 	if t.After != nil {
 		if err := t.After(rec); err != nil {
 			return nil, err
